@@ -73,11 +73,41 @@ type scripted struct {
 	pemCert []byte
 	cert    *x509.Certificate
 	log     []string // what the agent received, for C13
+	quiet   bool     // follow-up traffic: not logged
+	kept    []kept   // arguments retained by the agent, re-read after later requests
+}
+
+// kept: an argument the served agent holds on to (as a real agent does with a hardware
+// certificate), with its bytes at the time of the call
+type kept struct {
+	what string
+	get  func() []byte
+	was  []byte
+}
+
+func (s *scripted) keep(what string, get func() []byte) {
+	if !s.quiet {
+		s.kept = append(s.kept, kept{what, get, append([]byte(nil), get()...)})
+	}
+}
+
+// late: do the retained arguments still read as they did when they were delivered?
+func (s *scripted) late() string {
+	for _, k := range s.kept {
+		if !bytes.Equal(k.get(), k.was) {
+			return "late=changed:" + k.what
+		}
+	}
+	return "late=same"
 }
 
 var errFail = errors.New("scripted failure")
 
-func (s *scripted) rec(f string, a ...any) { s.log = append(s.log, fmt.Sprintf(f, a...)) }
+func (s *scripted) rec(f string, a ...any) {
+	if !s.quiet {
+		s.log = append(s.log, fmt.Sprintf(f, a...))
+	}
+}
 
 func (s *scripted) List() ([]*sshagent.Key, error) {
 	return []*sshagent.Key{{Format: "ssh-ed25519", Blob: fixedKey().Marshal(), Comment: "fixed"}}, nil
@@ -87,6 +117,8 @@ func (s *scripted) Sign(key ssh.PublicKey, data []byte) (*ssh.Signature, error) 
 }
 func (s *scripted) SignWithFlags(key ssh.PublicKey, data []byte, flags sshagent.SignatureFlags) (*ssh.Signature, error) {
 	s.rec("sign %x %x %d", key.Marshal(), data, flags)
+	s.keep("sign-key", key.Marshal)
+	s.keep("sign-data", func() []byte { return data })
 	if len(data) > 0 && data[0] == 0xFE {
 		return nil, errFail
 	}
@@ -101,11 +133,13 @@ func (s *scripted) Add(key sshagent.AddedKey) error {
 }
 func (s *scripted) Remove(key ssh.PublicKey) error {
 	s.rec("remove %x", key.Marshal())
+	s.keep("remove-key", key.Marshal)
 	return nil
 }
 func (s *scripted) RemoveAll() error { s.rec("removeall"); return nil }
 func (s *scripted) Lock(p []byte) error {
 	s.rec("lock %x", p)
+	s.keep("passphrase", func() []byte { return p })
 	if bytes.HasPrefix(p, []byte("fail")) {
 		return errFail
 	}
@@ -113,6 +147,7 @@ func (s *scripted) Lock(p []byte) error {
 }
 func (s *scripted) Unlock(p []byte) error {
 	s.rec("unlock %x", p)
+	s.keep("passphrase", func() []byte { return p })
 	if bytes.HasPrefix(p, []byte("fail")) {
 		return errFail
 	}
@@ -125,6 +160,7 @@ func (s *scripted) Extension(t string, c []byte) ([]byte, error) {
 }
 func (s *scripted) Forward(req []byte) ([]byte, error) {
 	s.rec("forward %x", req)
+	s.keep("forward-request", func() []byte { return req })
 	if len(req) > 0 && req[0] == 0xFE {
 		return nil, errFail
 	}
@@ -132,6 +168,7 @@ func (s *scripted) Forward(req []byte) ([]byte, error) {
 }
 func (s *scripted) AddHardCert(key ssh.PublicKey, comment string) error {
 	s.rec("addhard %x %x", key.Marshal(), comment)
+	s.keep("hardware-certificate", key.Marshal)
 	if strings.HasPrefix(comment, "fail:") {
 		return errors.New(comment[5:])
 	}
